@@ -162,6 +162,28 @@ def check(prog, rep, tier):
                     rep.bad('R20.b', key, file=fn.file, line=n.lineno, func=fn.qualname,
                             found='sequence number written outside the handler', key=key)
 
+    # every access to the per-peer tables inside write_msg / check_file_size uses the same key
+    for fn in (w, cls.find_method('check_file_size')):
+        peerp = fn.params[1] if len(fn.params) > 1 else 'peer'
+        bad_keys = []
+        for n in ast.walk(fn.node):
+            key_expr = None
+            if isinstance(n, ast.Subscript) and src_of(n.value) in ('self.peer_files', 'self.msg_sequence'):
+                key_expr = n.slice
+            elif isinstance(n, ast.Call) and isinstance(n.func, ast.Attribute) and n.func.attr == 'get' and \
+                    src_of(n.func.value) in ('self.peer_files', 'self.msg_sequence') and n.args:
+                key_expr = n.args[0]
+            if key_expr is not None and src_of(key_expr) != '%s.lower()' % peerp:
+                bad_keys.append((n.lineno, src_of(key_expr)))
+        key = 'peer-key:%s' % fn.name
+        if bad_keys:
+            rep.bad('R20.b', key, file=fn.file, line=bad_keys[0][0], func=fn.qualname,
+                    found='the per-peer table is indexed with %s here and with %s.lower() elsewhere: a peer address '
+                          'with an upper-case character gets two entries and writes go to a closed file' % (
+                              bad_keys[0][1], peerp), expected='one normalised key', key=key)
+        else:
+            rep.ok('R20.b', key, file=fn.file, line=fn.node.lineno)
+
     # ---------------------------------------------------------------- R20.c
     nsite = 0
     for fn in prog.all_functions():
